@@ -40,6 +40,7 @@ fn main() {
             "ros-case" => props::c07::replay(&v["case"]),
             "fp-case" => props::c08::replay(&v["case"]),
             "sbf-case" | "sbf-law" => props::c0910::replay_sbf(&v["case"]),
+            "sbf-inverse" => props::c0910::replay_sbf_inverse(&v["case"]),
             "arr-case" | "arr-far" => props::c0910::replay_arr(&v["case"]),
             "steps-arr" | "steps-rb" | "steps-arr-far" => props::c11::replay(&kind, &v["case"]),
             "derived" | "derived-far" | "trace" | "dual" => props::c12::replay(&kind, &v["case"]),
